@@ -4,7 +4,7 @@ import math
 
 from rv import bridge, gen, solvercheck as SC
 from rv.bridge import ALL, ANY
-from rv.core import Inconclusive
+from rv.core import Inconclusive, skippable
 from rv.refmodel import dtl
 from rv.refmodel.trees import T
 
@@ -24,7 +24,7 @@ META = {
     },
     "exhaustive": {"quick": True, "thorough": True},
     "space": {
-        "quick": "all inputs with <=3 object leaves x <=3 species leaves (all assignments, mirrored shapes) x 40 cost vectors; + random",
+        "quick": "all inputs with <=3 object leaves x <=3 species leaves (all assignments, mirrored shapes) x 40 cost vectors; + 1.9k random inputs up to 8x8 judged by the DP oracle (brute force on the small ones)",
         "thorough": "all inputs with <=4 object leaves x <=4 species leaves x 70 cost vectors; full coherent grid on <=3x3; + random up to 8x8",
     },
     "assumptions": [
@@ -39,7 +39,7 @@ NSHARD = 16
 
 def plan(tier, seed):
     if tier == "quick":
-        return [{"kind": "mix", "i": i, "n": NSHARD, "max_obj": 3, "max_sp": 3, "ncost": 40, "nrand": 40, "rand_obj": 5, "rand_sp": 6} for i in range(NSHARD)]
+        return [{"kind": "mix", "i": i, "n": NSHARD, "max_obj": 3, "max_sp": 3, "ncost": 40, "nrand": 120, "rand_obj": 8, "rand_sp": 8} for i in range(NSHARD)]
     specs = [{"kind": "mix", "i": i, "n": 32, "max_obj": 4, "max_sp": 4, "ncost": 70, "nrand": 700, "rand_obj": 8, "rand_sp": 8} for i in range(32)]
     specs += [{"kind": "grid33", "i": i, "n": 8} for i in range(8)]
     specs += [{"kind": "bf5", "i": i, "n": 16, "count": 2500} for i in range(16)]
@@ -120,6 +120,7 @@ def judge_table(B, table, best):
     return fails, ncells
 
 
+@skippable
 def check_case(ctx, case, report=None, table_hook=None, do_genall=True, brute=True):
     """One input: thl (ALL, ANY), exh (ALL, ANY), generate_all, table hook."""
     report = report or (lambda mon, msg, **d: ctx.viol(f"C01.{mon}", case, msg, **d))
@@ -236,7 +237,7 @@ def run(ctx, spec):
                         continue
                     case = {"kind": "plain", "G": Gn, "S": Sn, "leafmap": lm, "costs": c}
                     B = check_case(ctx, case, table_hook=hook)
-                    if len(B.G.leaves()) >= 3 and len(B.S.leaves()) >= 2:
+                    if B is not None and len(B.G.leaves()) >= 3 and len(B.S.leaves()) >= 2:
                         ctx.sample(case)
                     if ctx.too_many():
                         return
